@@ -3,6 +3,7 @@ CONSTANTS
   Events <- MCEvents
   RegEvents <- MCReg
   Prios <- MCPrios
+  Spawns <- MCSpawns
   MaxListeners = 8
   Depth = 14
 INVARIANT DispatchCorrect
